@@ -357,8 +357,13 @@ func regexpNext(sb *strings.Builder, sl *stringLexer, mode Mode) error {
 				bsb.WriteByte('-')
 				start := sl.last()
 				end := sl.peekNext()
+				closing := end == ']'
+				if rest := sl.peekRest(); end == '\\' && len(rest) > 1 {
+					// The end of the range is an escaped character.
+					end, _ = utf8.DecodeRuneInString(rest[1:])
+				}
 				// TODO: what about overlapping ranges, like: [a--z]
-				if end != ']' && start > end && deferredErr == nil {
+				if !closing && start > end && deferredErr == nil {
 					deferredErr = &SyntaxError{msg: fmt.Sprintf("invalid range: %c-%c", start, end)}
 				}
 			case ']':
